@@ -332,7 +332,9 @@ class STAR:
         out = {
             'class': votelib.persist.scoped_class_name(self),
             'runoff_added_count': self.runoff_added_count,
-            'runoff_added_fraction': self.runoff_added_fraction,
+            'runoff_added_fraction': votelib.persist.serialize_value(
+                self.runoff_added_fraction
+            ),
             'runoff_evaluator': self.runoff_evaluator.to_dict(),
         }
         for key, val in self._agg.to_dict().items():
